@@ -62,6 +62,35 @@ def run(ck):
     ck.require(EFD, "PollableQueue::bind does not register a member descriptor with the poller")
     is_efd = lambda a_: strip_tmpl((a_ or {}).get("f") or "") in EFD
 
+    # ---------------- R7: one eventfd per pollable queue ----------------
+    ck.rule("C13-R7", "D who-may-write (origin of the notification descriptor)",
+            "a pollable queue signals and drains a descriptor of its own: every store to the descriptor field is -1 (unbound) or the "
+            "result of a fresh eventfd() -- a descriptor taken from another queue makes one queue's pop() consume the other's wake-up, "
+            "and an entry pushed in between stays queued with nothing pending", 2)
+
+    def fresh_eventfd_at(fn_, line):
+        evs = [e for e in fn_.events("call") if e.get("l") == line]
+        for lf in prog.lambdas_in(fn_):
+            m_ = re.match(r"lambda@.*?:(\d+):\d+", lf.id)
+            if m_ and int(m_.group(1)) == line:
+                evs += list(lf.events("call"))
+        return any(is_libc(e, "eventfd") for e in evs)
+    for f in prog.funcs.values():
+        if not f.blocks:
+            continue
+        stores = [(e, e["lhs"].get("f"), e.get("const"), e.get("rhs") or {}) for e in f.events("assign") if strip_tmpl(e["lhs"].get("f") or "") in EFD]
+        stores += [(e, e.get("f"), e.get("const"), {"t": e.get("t"), "v": e.get("v")}) for e in f.events("init") if strip_tmpl(e.get("f") or "") in EFD]
+        for e, fld, const, rhs in stores:
+            ok = const == -1
+            if not ok and rhs.get("v"):
+                ds = [d for d in f.events("decl") if d.get("var") == rhs.get("v")]
+                ok = bool(ds) and all(is_libc({"k": "call", "callee": d.get("icall"), "cfile": ""}, "eventfd") or fresh_eventfd_at(f, d.get("l")) for d in ds)
+            elif not ok:
+                ok = fresh_eventfd_at(f, e.get("l"))
+            ck.ob("C13-R7", "descriptor-store@%s" % prog.owner(f).base.replace("Pistache::", ""), ok, e.loc, f,
+                  "-1 or a fresh eventfd()" if ok else "the queue's descriptor is set from `%s`, which is not a fresh eventfd(): two queues "
+                  "that share a descriptor consume each other's notifications" % (rhs.get("t") or "?"))
+
     # ---------------- R1 ----------------
     pushes = prog.find("Pistache::Queue::push", 2)
     for f in pushes:
